@@ -26,7 +26,7 @@ Norm(e) == CASE e.k = "SB"  -> [e EXCEPT !.inp = ToSet(@)]
              [] e.k = "DE"  -> [e EXCEPT !.vals = ToSet(@)]
              [] e.k = "CB"  -> IF e.f \in {"set_data", "get_data"} THEN [e EXCEPT !.arg = ToSet(@)]
                                ELSE IF e.f = "get_related_entities"
-                                 THEN [e EXCEPT !.created = ToSet(@), !.q = ToSet(@), !.nodes = ToSet(@), !.edges = ToSet(@), !.rel = ToSet(@)]
+                                 THEN [e EXCEPT !.created = ToSet(@), !.rels = ToSet(@), !.q = ToSet(@), !.nodes = ToSet(@), !.edges = ToSet(@), !.rel = ToSet(@)]
                                ELSE e
              [] e.k = "END" -> [e EXCEPT !.names = ToSet(@)]
              [] e.k = "EG"  -> [e EXCEPT !.nodes = ToSet(@), !.edges = ToSet(@)]
